@@ -36,7 +36,7 @@ def gen_users(rng, encrypted, max_users=3):
     for i, u in enumerate(users):
         u['password'] = stem + f'pw-{i}-' + ''.join(rng.choice('abcdefghijklmnopqrstuvwxyz') for _ in range(6))
         if substream_of(rng, i) < 0.15:
-            u['password'] += rng.choice([' pässwörd', ' 密码', ' \t tab', ' "quoted\\"', ' 🙂'])     # non-ASCII, blanks, quotes, backslash
+            u['password'] += rng.choice([' pässwörd', ' 密码', ' \t tab', ' "quoted\\"', ' 🙂', ' ²№ﬁ', ' Ｂｏｂ', '\u00a0x', ' e\u0301'])     # non-ASCII, blanks, quotes, backslash, compatibility characters
         u['kdf'] = rng.choice(['scrypt', 'scrypt', 'scrypt', 'blake2b'])
         u['N'] = rng.choice([1, 2, 2, 3, 4])
         if u['rel'] == 'clone':
@@ -410,13 +410,17 @@ class History:
                 pw = c.password
                 variants = [pw[:-1], pw + b'\n', pw[:64] if len(pw) > 64 else pw + b' ', pw[:-1] + bytes([pw[-1] ^ 1])]
                 v = variants[rng.randrange(4)] if len(pw) <= 64 else variants[2]
-                if v == pw:
-                    continue
-                self.probe('near_miss_unlock')
-                r = W.run(world.Client('x', password=v, key=c.key, concurrent=1), noop, seq)
-                if r.ok:
-                    raise Violation('access-unlock', f'key of u{i} (pass-phrase of {len(pw)} bytes) also unlocks with a different pass-phrase of {len(v)} bytes',
-                                    {'what': 'near-miss'})
+                tries = [v] if v != pw else []
+                alike = gen.look_alike_passwords(pw)
+                if alike:
+                    tries.append(alike[rng.randrange(len(alike))])      # same text to the eye, other Unicode form
+                    self.probe('near_miss_unicode_form')
+                for v in tries:
+                    self.probe('near_miss_unlock')
+                    r = W.run(world.Client('x', password=v, key=c.key, concurrent=1), noop, seq)
+                    if r.ok:
+                        raise Violation('access-unlock', f'key of u{i} (pass-phrase of {len(pw)} bytes) also unlocks with a different pass-phrase of {len(v)} bytes',
+                                        {'what': 'near-miss'})
 
     def is_live(self, u):
         """Does this command of user u run inside u's long-lived process?  (Now and then the same
